@@ -123,9 +123,16 @@ func (fx *FuncExec) addObl(name, kind, prop, text, where string, cover bool, st 
 		o.Instances = append(o.Instances, &Instance{Goal: goal, Verdict: "unsat", Solver: "syntactic", Path: strings.Join(trail, ">")})
 		return
 	}
-	inst := &Instance{Assumps: append([]Term(nil), st.pc...), Goal: goal, Path: strings.Join(trail, ">")}
-	inst.Decls = fx.c.decls[:len(fx.c.decls):len(fx.c.decls)]
-	o.Instances = append(o.Instances, inst)
+	goals := []Term{goal}
+	if !cover {
+		goals = splitGoal(goal, 6)
+	}
+	assumps := append([]Term(nil), st.pc...)
+	for _, g := range goals {
+		inst := &Instance{Assumps: assumps, Goal: g, Path: strings.Join(trail, ">")}
+		inst.Decls = fx.c.decls[:len(fx.c.decls):len(fx.c.decls)]
+		o.Instances = append(o.Instances, inst)
+	}
 }
 
 // ---------------------------------------------------------------------------
@@ -317,7 +324,9 @@ func (fx *FuncExec) run() {
 		fx.entryObjs[id] = true
 	}
 	if fx.preAxioms {
-		fx.specErrs = append(fx.specErrs, fx.pk.axiomsInto(st, nil)...)
+		if fx.con != nil {
+			fx.specErrs = append(fx.specErrs, fx.pk.axiomsInto(st, nil, fx.con.Uses)...)
+		}
 	}
 	if fx.con != nil {
 		env := &SpecEnv{st: st, old: st, vars: vars, fx: fx}
